@@ -415,6 +415,39 @@ func Gen02(t *rapid.T) Case02 {
 			c.Input = B(gen.Ref(t, "ref", gen.SchemeOf(string(c.Base))))
 		}
 	}
+	if rapid.IntRange(0, 5).Draw(t, "juggle") == 0 {
+		// parameter-list juggling: several URL values, lists handed from one to another, then every
+		// kind of use of every value (a list that changed owner must keep working for all of them)
+		c.Input, c.HasBase = B(gen.Pick(t, "jstart", []string{"http://h/p?a=1&b=2", "foo://h/?x", "http://h/", "a:b?c=d", "file:///p?q"})), false
+		for i, k := 0, rapid.IntRange(1, 3).Draw(t, "jclones"); i < k; i++ {
+			if rapid.IntRange(0, 1).Draw(t, "jhow") == 0 {
+				c.Ops = append(c.Ops, Op02{Kind: "clone", Reg: rapid.IntRange(0, 3).Draw(t, "jreg")})
+			} else {
+				c.Ops = append(c.Ops, Op02{Kind: "resolve", Reg: rapid.IntRange(0, 3).Draw(t, "jreg"), Value: B(gen.Pick(t, "jref", []string{"?z=9", "x?y=1", "#f", ""}))})
+			}
+		}
+		for i, k := 0, rapid.IntRange(1, 4).Draw(t, "jmoves"); i < k; i++ {
+			c.Ops = append(c.Ops, Op02{Kind: "setparams", Reg: rapid.IntRange(0, 3).Draw(t, "jdst"), Reg2: rapid.IntRange(0, 3).Draw(t, "jsrc")})
+		}
+		for i, k := 0, rapid.IntRange(1, 5).Draw(t, "juses"); i < k; i++ {
+			reg := rapid.IntRange(0, 3).Draw(t, "jureg")
+			switch rapid.IntRange(0, 5).Draw(t, "juse") {
+			case 0:
+				c.Ops = append(c.Ops, Op02{Kind: "set", Reg: reg, Setter: spec.SetterSearch, Value: B(gen.Pick(t, "jsearch", []string{"k=v", "", "?a&b"}))})
+			case 1:
+				c.Ops = append(c.Ops, Op02{Kind: "spclone", Reg: reg})
+			case 2:
+				c.Ops = append(c.Ops, Op02{Kind: "iterate", Reg: reg})
+			case 3:
+				c.Ops = append(c.Ops, Op02{Kind: "sp", Reg: reg, SP: SPOp{Op: gen.Pick(t, "jspop", []string{"append", "string", "sort", "set", "delete"}), Name: "k", Value: "v"}})
+			case 4:
+				c.Ops = append(c.Ops, Op02{Kind: "setparams", Reg: reg, Reg2: rapid.IntRange(0, 3).Draw(t, "jsrc2")})
+			default:
+				c.Ops = append(c.Ops, Op02{Kind: "clone", Reg: reg})
+			}
+		}
+		return c
+	}
 	n := rapid.IntRange(0, 12).Draw(t, "nops")
 	kinds := []string{"set", "set", "set", "set", "resolve", "resolve", "clone", "sp", "sp", "iterate", "setparams", "spclone", "encode", "decode", "reparse", "profileparse", "newurl"}
 	spOps := []string{"append", "delete", "set", "sort", "sortabs", "get", "getall", "has", "string"}
